@@ -323,8 +323,8 @@ class C05(Property):
                 w['line'] = stoich.rstrip() if stoich.strip().endswith('->') is False else stoich     # no parameter part at all
             elif m < 0.3:
                 w['line'] = stoich + "; 'k_%d'" % rng.randint(0, 99)                                   # quoted (named) parameter
-            elif m < 0.4:
-                w['line'] = w['line'] + "; name='n%d'" % rng.randint(0, 10 ** 6)
+            elif m < 0.4 and ';' in w['line']:
+                w['line'] = w['line'] + "; name='n%d'" % rng.randint(0, 10 ** 6)     # (only after a parameter part: the 2nd part IS the parameter)
         return {'op': 'from_string_balance', 'subs': sj, 'written': written, 'planted': planted, 'charge_kw': charge_kw,
                 'alias': self._alias(rng, sj)}
 
